@@ -285,6 +285,13 @@ class OutProtocolBase(ProtocolMixin):
         cls_attrs = self.get_cls_attrs(cls)
 
         if isinstance(value, six.text_type):
+            # formats apply to the text, which is then encoded
+            if cls_attrs.str_format is not None:
+                value = cls_attrs.str_format.format(value)
+            elif cls_attrs.format is not None:
+                value = cls_attrs.format % value
+
+            retval = value
             if cls_attrs.encoding is not None:
                 retval = value.encode(cls_attrs.encoding)
             elif self.default_string_encoding is not None:
@@ -292,6 +299,8 @@ class OutProtocolBase(ProtocolMixin):
             elif not six.PY2:
                 logger.warning("You need to set either an encoding for %r "
                                "or a default_string_encoding for %r", cls, self)
+
+            return retval
 
         if cls_attrs.str_format is not None:
             return cls_attrs.str_format.format(value)
